@@ -1307,7 +1307,7 @@ func (c *Ctx) c20RuleA(e *c20Eng) {
 			c.OK(rule, key, s.pos, "%s is outside the parse-only slice", c.src(call))
 		}
 	}
-	c.MinCount(rule, "explicit panic sites in lang/expressions", len(panics), 10)
+	c.MinCount(rule, "explicit panic sites in lang/expressions", len(panics), 6)
 	reviewed := map[string]bool{"'&','&'": false, "'-','>'": false}
 	for _, s := range wrapCalls {
 		call := s.node.(*ast.CallExpr)
